@@ -501,7 +501,7 @@ class Profile:
                  max_blocks=4, max_c=6, kmax=9, bn=True, pool=True, two_d_k=(1, 3, 5),
                  linear_tail=True, strides=(1, 2), dil=(1, 2, 3), cat_input=True,
                  conv2d_pad0=True, act_variants=True, min_blocks=1, first_conv=False,
-                 dropout=True, bridge=False, fixtures=False):
+                 dropout=True, bridge=False, fixtures=False, dil2d=(1, 1, 1, 2, 3)):
         self.__dict__.update(locals())
         del self.__dict__['self']
 
@@ -592,6 +592,11 @@ class _B:
             if allow_stride and not keep_shape and min(H, W) >= 4 and 2 in p.strides and \
                     d(st.integers(0, 4)) == 0:
                 stride = 2
+            if k > 1 and pad > 0 and len(p.dil2d) > 1:
+                # a dilated 2-D convolution (same-padded: pad = dil * (k // 2) keeps the shape)
+                dil = d(st.sampled_from(p.dil2d))
+                if dil > 1:
+                    return self.add('conv2d', [t], k=k, p=pad * dil, stride=stride, dil=dil, **kw)
             return self.add('conv2d', [t], k=k, p=pad, stride=stride, **kw)
 
     def act(self, t):
@@ -646,6 +651,15 @@ def _fixtures(family: str, pad: str = 'causal'):
                 {'id': 'n2', 'op': 'flatten', 'in': ['n1'], 'variant': 'mod'},
                 lin('n3', 'n2', 6), relu('n4', 'n3'), lin('n5', 'n4', 5, bn=True), relu('n6', 'n5'),
                 lin('n7', 'n6', 2)])
+    # two DIFFERENT views of one producer concatenated (both operands carry the same calculator
+    # object through the features-propagating ops), also with a third operand / of the input
+    relu6 = lambda i, src: {'id': i, 'op': 'relu6', 'in': [src], 'variant': 'mod'}   # noqa
+    out.append([conv('n0', 'x', 4), relu('n1', 'n0'), relu6('n2', 'n0'), cat('n3', ['n1', 'n2']),
+                conv('n4', 'n3', 3)])
+    out.append([conv('n0', 'x', 3), relu('n1', 'n0'), conv('n2', 'x', 2),
+                cat('n3', ['n0', 'n1', 'n2']), conv('n4', 'n3', 3)])
+    out.append([relu('n0', 'x'), cat('n1', ['x', 'n0']), conv('n2', 'n1', 3), relu('n3', 'n2'),
+                conv('n4', 'n3', 2)])
     # a true MLP: the flatten merges the axes of the NETWORK INPUT (constant features), then
     # searchable Linear layers - and the same behind a pooling of the input
     flat = lambda i, src, v: {'id': i, 'op': 'flatten', 'in': [src], 'variant': v}   # noqa
